@@ -5,18 +5,21 @@ pub trait SignedHeaderRequirements {
     spec fn if_in_request_spec(&self) -> Seq<Seq<u8>>;
     spec fn prefixes_spec(&self) -> Seq<Seq<u8>>;
 //@ fn canonical.rs trait SignedHeaderRequirements :: always_present
+//@ params
 //@ props C05
 //@ ret r
 //@ spec
         ensures cows_bytes(r@) == self.always_spec()
 //@ end
 //@ fn canonical.rs trait SignedHeaderRequirements :: if_in_request
+//@ params
 //@ props C05
 //@ ret r
 //@ spec
         ensures cows_bytes(r@) == self.if_in_request_spec()
 //@ end
 //@ fn canonical.rs trait SignedHeaderRequirements :: prefixes
+//@ params
 //@ props C05
 //@ ret r
 //@ spec
@@ -34,17 +37,21 @@ impl<'a, 'b, 'c> SignedHeaderRequirements for SliceSignedHeaderRequirements<'a, 
     closed spec fn if_in_request_spec(&self) -> Seq<Seq<u8>> { cows_bytes(self.if_in_request@) }
     closed spec fn prefixes_spec(&self) -> Seq<Seq<u8>> { cows_bytes(self.prefixes@) }
 //@ fn canonical.rs impl<'a, 'b, 'c> SignedHeaderRequirements for SliceSignedHeaderRequirements<'a, 'b, 'c> :: always_present
+//@ params
 //@ props C08 C05
 //@ end
 //@ fn canonical.rs impl<'a, 'b, 'c> SignedHeaderRequirements for SliceSignedHeaderRequirements<'a, 'b, 'c> :: if_in_request
+//@ params
 //@ props C08 C05
 //@ end
 //@ fn canonical.rs impl<'a, 'b, 'c> SignedHeaderRequirements for SliceSignedHeaderRequirements<'a, 'b, 'c> :: prefixes
+//@ params
 //@ props C08 C05
 //@ end
 }
 impl<'a, 'b, 'c> SliceSignedHeaderRequirements<'a, 'b, 'c> {
 //@ fn canonical.rs impl<'a, 'b, 'c> SliceSignedHeaderRequirements<'a, 'b, 'c> :: new
+//@ params always_present if_in_request prefixes
 //@ props C08 C05
 //@ ret r
 //@ spec
@@ -56,12 +63,15 @@ impl SignedHeaderRequirements for VecSignedHeaderRequirements {
     closed spec fn if_in_request_spec(&self) -> Seq<Seq<u8>> { cows_bytes(self.if_in_request@) }
     closed spec fn prefixes_spec(&self) -> Seq<Seq<u8>> { cows_bytes(self.prefixes@) }
 //@ fn canonical.rs impl SignedHeaderRequirements for VecSignedHeaderRequirements :: always_present
+//@ params
 //@ props C08 C05
 //@ end
 //@ fn canonical.rs impl SignedHeaderRequirements for VecSignedHeaderRequirements :: if_in_request
+//@ params
 //@ props C08 C05
 //@ end
 //@ fn canonical.rs impl SignedHeaderRequirements for VecSignedHeaderRequirements :: prefixes
+//@ params
 //@ props C08 C05
 //@ end
 }
@@ -120,6 +130,7 @@ pub proof fn lemma_list_remove(list: Seq<Seq<u8>>, name: Seq<u8>)
 
 impl VecSignedHeaderRequirements {
 //@ fn canonical.rs impl VecSignedHeaderRequirements :: new
+//@ params always_present if_in_request prefixes
 //@ props C08 C05
 //@ ret r
 //@ replace 1 `always_present.iter().map(|s| Cow::Owned((*s).into())).collect()` => `slice_refs_into_cows(always_present)`
@@ -131,6 +142,7 @@ impl VecSignedHeaderRequirements {
                 && r.prefixes_spec() == refs_into_bytes::<C>(prefixes@), //# C05 name=each_list_stored_under_its_own_kind
 //@ end
 //@ fn canonical.rs impl VecSignedHeaderRequirements :: add_always_present
+//@ params header
 //@ props C08 C05
 //@ replace 1 `header.to_ascii_lowercase()` => `str_to_ascii_lowercase(header)`
 //@ replace 1 `h == &header_lower` => `cow_eq_string(h, &header_lower)`
@@ -160,6 +172,7 @@ impl VecSignedHeaderRequirements {
                 str_bytes(header_lower@) == lower(header.spec_bytes()),
 //@ end
 //@ fn canonical.rs impl VecSignedHeaderRequirements :: remove_always_present
+//@ params header
 //@ props C08 C05
 //   (the shadowing local is alpha-renamed so the contract can still name the parameter; the retain-with-closure idiom is outlined)
 //@ replace 1 `let header = header.to_ascii_lowercase();` => `let header_lc = str_to_ascii_lowercase(header);`
@@ -174,6 +187,7 @@ impl VecSignedHeaderRequirements {
         proof { lemma_list_remove(old(self).always_spec(), header.spec_bytes()); }
 //@ end
 //@ fn canonical.rs impl VecSignedHeaderRequirements :: add_if_in_request
+//@ params header
 //@ props C08 C05
 //@ replace 1 `header.to_ascii_lowercase()` => `str_to_ascii_lowercase(header)`
 //@ replace 1 `h == &header_lower` => `cow_eq_string(h, &header_lower)`
@@ -203,6 +217,7 @@ impl VecSignedHeaderRequirements {
                 str_bytes(header_lower@) == lower(header.spec_bytes()),
 //@ end
 //@ fn canonical.rs impl VecSignedHeaderRequirements :: remove_if_in_request
+//@ params header
 //@ props C08 C05
 //   (the shadowing local is alpha-renamed so the contract can still name the parameter; the retain-with-closure idiom is outlined)
 //@ replace 1 `let header = header.to_ascii_lowercase();` => `let header_lc = str_to_ascii_lowercase(header);`
@@ -217,6 +232,7 @@ impl VecSignedHeaderRequirements {
         proof { lemma_list_remove(old(self).if_in_request_spec(), header.spec_bytes()); }
 //@ end
 //@ fn canonical.rs impl VecSignedHeaderRequirements :: add_prefix
+//@ params prefix
 //@ props C08 C05
 //@ replace 1 `prefix.to_ascii_lowercase()` => `str_to_ascii_lowercase(prefix)`
 //@ replace 1 `h == &prefix_lower` => `cow_eq_string(h, &prefix_lower)`
@@ -246,6 +262,7 @@ impl VecSignedHeaderRequirements {
                 str_bytes(prefix_lower@) == lower(prefix.spec_bytes()),
 //@ end
 //@ fn canonical.rs impl VecSignedHeaderRequirements :: remove_prefix
+//@ params prefix
 //@ props C08 C05
 //   (the shadowing local is alpha-renamed so the contract can still name the parameter; the retain-with-closure idiom is outlined)
 //@ replace 1 `let prefix = prefix.to_ascii_lowercase();` => `let prefix_lc = str_to_ascii_lowercase(prefix);`
